@@ -3,8 +3,9 @@
 //! Domain: well-formed ELF images produced by the harness-side writer (`elfw`) from a model:
 //! ELF32/ELF64, LSB/MSB, EM_386 / X86_64 / MIPS / PPC / AARCH64, 1-4 PT_LOAD segments, non-load
 //! program headers, section headers, .symtab / .dynsym, .dynamic, PLT and dynamic relocations;
-//! a base address; user function entries.  For the linker: an EM_386 main object plus one or two
-//! shared objects written to a scratch directory and linked with `ElfLinker`.
+//! a base address; user function entries.  For the linker: a main object plus one or two shared
+//! objects (EM_386 with R_386_* relocations, or MIPS o32 with a GOT) written to a scratch directory
+//! under work/C19 and linked with `ElfLinker`.
 //!
 //! Oracle: the model (never falcon's or goblin's reading of the bytes).
 
@@ -1009,6 +1010,9 @@ fn check_single(img: &Image, base: u64, user_model: &[Addr], obs: &mut Obs) -> R
     if obs.want_sample() {
         obs.sample(render(&Case::Single { image: img.clone(), base, user: user_model.to_vec() }));
     }
+    // the un-rebased program entry shows on every image loaded at a base != 0: report it last so
+    // that a reproduction of another defect replays under its own signature
+    fails.sort_by_key(|f| f.sig == "C19|rebase|program_entry");
     verdict(fails, obs)
 }
 
@@ -1605,7 +1609,7 @@ fn main() -> std::process::ExitCode {
         "C19",
         "ELF images written by the harness from a model (ELF32/64, LSB/MSB, EM_386/X86_64/MIPS/PPC/AARCH64, 1-4 PT_LOAD segments with every R/W/X combination, zero-fill tails, non-load program headers, .symtab/.dynsym with FUNC/OBJECT/NOTYPE x local/global/weak x defined/undefined/zero-valued/absolute symbols, .dynamic, PLT and dynamic relocations) loaded with Elf::new at base B and at base 0, with user entries; about 5% of the cases are a main program plus one or two shared objects (EM_386, or MIPS o32 with a GOT) written to a scratch directory and linked with ElfLinker. Non-trivial single image = at least two segments with memsz > filesz in one of them, B != 0 and at least three different kinds of symbols; non-trivial link = at least two relocated words, of two kinds for EM_386, and a library base != 0. Distinct = (machine, class, endianness, per-segment flags/zero-fill shape, set of symbol kinds, alignment of B, PLT relocations present, number of user entries) resp. (number of objects, relocation kinds, number of relocations, segments per object)",
         Box::new(|_t: Tier| from_tape(1100, decode)),
-        |t| t.pick(100_000, 4_000_000),
+        |t| t.pick(80_000, 3_000_000),
         check,
     );
     spec.render = render;
@@ -1625,26 +1629,37 @@ fn main() -> std::process::ExitCode {
         "linker: EM_386 (R_386_JMP_SLOT, GLOB_DAT, 32 with a zero in-place addend, RELATIVE) and MIPS o32 (GOT described by DT_MIPS_LOCAL_GOTNO/GOTSYM/SYMTABNO: local entries = link-time value + base, global entries = address of the named symbol, GOT[0] and GOT[1] belong to the run-time linker and are not asserted; R_MIPS_REL32 against symbol 0 only); every imported name has exactly one visible definition (no interposition, no unresolved weak symbols); a library's dependencies are listed in its own DT_NEEDED; where the linker places a library is read back with Elf::base_address(), not asserted".into(),
         "Loader::program()/program_verbose() (lifting over the entries) is not part of the property statement and is not checked here".into(),
     ];
+    // floors: about half of the measured quick-tier fractions (seed 1), frozen
     spec.floors = vec![
-        ("arch-386-32le", 0.08),
+        ("arch-386-32le", 0.10),
         ("arch-x86_64-64le", 0.08),
         ("arch-mips-32be", 0.05),
         ("arch-mips-32le", 0.05),
         ("arch-ppc-32be", 0.05),
         ("arch-aarch64-64le", 0.05),
         ("arch-aarch64-64be", 0.04),
-        ("segment-with-zero-fill", 0.30),
-        ("segment-all-zero-fill", 0.03),
+        ("segment-with-zero-fill", 0.40),
+        ("segment-all-zero-fill", 0.02),
+        ("segment-vaddr-inside-page", 0.35),
+        ("segments-on-adjacent-pages", 0.20),
         ("segments-4", 0.10),
         ("base-0", 0.05),
+        ("base-0x40000000", 0.08),
         ("base-random-page", 0.20),
+        ("base-unaligned", 0.05),
         ("plt-relocations", 0.10),
-        ("sym-undefined-func-nonzero", 0.05),
+        ("sym-undefined-func-nonzero", 0.08),
         ("sym-defined-func", 0.30),
+        ("sym-defined-func-at-mapped-zero", 0.008),
+        ("sym-weak", 0.20),
+        ("sym-local", 0.25),
         ("user-entries", 0.25),
         ("headers-not-loaded", 0.10),
+        ("no-section-headers", 0.05),
         ("non-load-program-headers", 0.40),
         ("link", 0.03),
+        ("link-386", 0.012),
+        ("link-mips-got", 0.012),
         ("nontrivial", 0.25),
     ];
     spec.workers = |t| t.pick(8, 16);
